@@ -13,7 +13,7 @@ import report           # noqa: E402
 import world as WD      # noqa: E402
 import hir as H         # noqa: E402
 
-PROPS = ["C01", "C02", "C03", "C04", "C05", "C06", "C07", "C08", "C09", "C11",
+PROPS = ["C01", "C02", "C03", "C04", "C05", "C06", "C07", "C08", "C09", "C10", "C11",
          "C12", "C13", "C14", "C15", "C16", "C17", "C18", "C19", "C20"]
 
 
